@@ -81,6 +81,10 @@ def gen_cases(chk):
     cases.append(("szMode=SZ_BEST_SPEED;absErrBound=1E-2", ["c:0:1:%s:%s:0:0,0,0,0,64:0:5:%s" % (dbits(0.1), dbits(0.1), one)], "C:0:0,0,0,1e,28:0:9:%s" % one))
     cases.append(("szMode=SZ_BEST_SPEED;absErrBound=1E-2", ["k:SZ1.4:0:0,0,0,a,a:1:6:%s" % dbits(100.0)], "C:0:0,0,0,1e,28:0:9:%s" % one))
     cases.append(("szMode=SZ_BEST_SPEED;errorBoundMode=PW_REL;pw_relBoundRatio=1E-2", ["c:0:a:0:0:%s:0,0,0,0,64:0:5:%s" % (dbits(1e-6), one)], "C:0:0,0,0,0,c8:0:9:%s" % one))
+    # a constant array (value range within the bound) takes the early-return branch of the entry: per-call state must be put back there too
+    for ty in (0, 1):
+        cases.append(("szMode=SZ_BEST_SPEED", ["c:%x:0:%s:%s:0:0,0,0,0,100:6:5:%s" % (ty, dbits(1e-3), dbits(1e-3), one)],
+                      "c:%x:a:0:0:%s:0,0,0,0,1000:0:9:%s" % (ty, dbits(1e-2), one)))
     n = 400 if thorough else 70
     for _ in range(n):
         cfg = rng.choice(CFGS)
